@@ -138,7 +138,7 @@ def _perms(P, which):
     return [s for s in itertools.permutations(range(P)) if s != ident] if which == "all" else [tuple(which)]
 
 
-def dt_rule(ctx, rule="volume", P=3, n=2, N=2, sigma="all", iso=None):
+def dt_rule(ctx, rule="volume", P=3, n=2, N=2, sigma="all", iso=None, diss=None):
     """one step-size rule of Constraints, called the way getDt calls it: same dt for every listing order of the phases"""
     D = phase_inputs(ctx, P, n, N=N)
     sh = shared_inputs(ctx, N, iso=iso)
@@ -146,7 +146,7 @@ def dt_rule(ctx, rule="volume", P=3, n=2, N=2, sigma="all", iso=None):
     dtPrev = 0.01 if N == 1 else sh["time"][N - 1] - sh["time"][N - 2]
 
     def call(order):
-        m = mk_model(ctx, D, order, n, sh, N=N)
+        m = mk_model(ctx, D, order, n, sh, N=N, diss=diss)
         c, pd = m.constraints, m.pData
         if rule == "psd":
             return c.computeDTfromPSD(pd.n, pd.temperature, m.PBM, m.growth, m.dissolutionIndex, m.phases, dtMax)
@@ -165,13 +165,13 @@ def dt_rule(ctx, rule="volume", P=3, n=2, N=2, sigma="all", iso=None):
         ctx.prove("%s step limit does not depend on the order of the phases" % rule, ctx.eq(call(s), ref))
 
 
-def get_dt(ctx, P=2, n=2, N=2, sigma="all", checks=("psd", "nucleation", "temperature", "rcrit", "volume"), iso=None):
+def get_dt(ctx, P=2, n=2, N=2, sigma="all", checks=("psd", "nucleation", "temperature", "rcrit", "volume"), iso=None, diss=None):
     """PrecipitateModel.getDt (all step-size rules together): same dt for every listing order of the phases"""
     D = phase_inputs(ctx, P, n, N=N)
     sh = shared_inputs(ctx, N, iso=iso)
 
     def call(order):
-        m = mk_model(ctx, D, order, n, sh, N=N)
+        m = mk_model(ctx, D, order, n, sh, N=N, diss=diss)
         c = m.constraints
         c.checkPSD = "psd" in checks; c.checkNucleation = "nucleation" in checks; c.checkTemperature = "temperature" in checks
         c.checkRcrit = "rcrit" in checks; c.checkVolumePre = "volume" in checks
@@ -686,17 +686,17 @@ HARNESSES = [
             opts={"max_paths": 3000}, budget={"quick": 150.0, "thorough": 1500.0},
             params={"quick": [{"rule": "volume", "P": 3, "n": 2, "N": 2}, {"rule": "volume", "P": 2, "n": 3, "N": 1},
                               {"rule": "nucleation", "P": 3, "n": 2, "N": 2}, {"rule": "nucleation", "P": 3, "n": 2, "N": 1},
-                              {"rule": "rcrit", "P": 3, "n": 2, "N": 2}, {"rule": "psd", "P": 3, "n": 2, "N": 2, "iso": True},
-                              {"rule": "psd", "P": 2, "n": 2, "N": 2}],
+                              {"rule": "rcrit", "P": 3, "n": 2, "N": 2}, {"rule": "psd", "P": 3, "n": 2, "N": 2, "iso": True, "diss": [0, 1, 0]},
+                              {"rule": "psd", "P": 2, "n": 2, "N": 2, "diss": [1, 0]}],
                     "thorough": [{"rule": r, "P": 3, "n": 3, "N": N} for r in ("volume", "nucleation", "rcrit") for N in (1, 2)]
-                                + [{"rule": "psd", "P": 3, "n": 2, "N": 2}, {"rule": "psd", "P": 2, "n": 3, "N": 2, "iso": True}]}),
+                                + [{"rule": "psd", "P": 3, "n": 2, "N": 2, "diss": [1, 0, 2]}, {"rule": "psd", "P": 2, "n": 3, "N": 2, "iso": True, "diss": [2, 0]}]}),
     Harness("C11.get_dt", get_dt, functions=_FP, assumptions=_AP, bounds={"phases": "P", "size classes": "n"},
             opts={"max_paths": 3000, "branch_timeout_ms": 400}, budget={"quick": 150.0, "thorough": 1500.0},
             params={"quick": [{"P": 2, "n": 2, "N": 2, "checks": ["volume", "temperature", "rcrit"]},
-                              {"P": 2, "n": 2, "N": 2, "checks": ["psd", "nucleation"], "iso": True},
+                              {"P": 2, "n": 2, "N": 2, "checks": ["psd", "nucleation"], "iso": True, "diss": [0, 1]},
                               {"P": 2, "n": 2, "N": 1}, {"P": 3, "n": 2, "N": 2, "checks": ["volume", "temperature"]}],
                     "thorough": [{"P": 3, "n": 2, "N": 2, "checks": ["volume", "temperature", "nucleation"]},
-                                 {"P": 3, "n": 2, "N": 2, "checks": ["psd", "rcrit"], "iso": True}, {"P": 2, "n": 2, "N": 2}]}),
+                                 {"P": 3, "n": 2, "N": 2, "checks": ["psd", "rcrit"], "iso": True, "diss": [0, 1, 0]}, {"P": 2, "n": 2, "N": 2, "diss": [1, 0]}]}),
     Harness("C11.nuc_sites", nuc_sites, functions=_FP, assumptions=_AP, bounds={"phases": "len(sites)"},
             params={"quick": [{"sites": ["bulk", "bulk", "gb"], "parents": [[], [0], []]},
                               {"sites": ["gb", "disl", "gb"], "parents": [[], [], [1]]},
